@@ -84,7 +84,7 @@ harnesses! {
     fn c13t_merge_1_and_2 [unwind 6] (s) { merge_body(s, 1, 2) }
     fn c13_merge_2_and_1 [unwind 6] (s) { merge_body(s, 2, 1) }
     fn c13t_insert_into_4 [unwind 7] (s) { insert_body(s, 4) }
-    fn c13t_lookup_in_5 [unwind 8] (s) { lookup_body(s, 5) }
+    fn c13t_lookup_in_4 [unwind 7] (s) { lookup_body(s, 4) }
     fn c13t_eq_matches_model_3x3 [unwind 7] (s) { eq_model_body(s, 3, 3) }
     fn c13_eq_ignores_order [unwind 6] (s) { eq_order_body(s) }
 }
@@ -103,7 +103,7 @@ harnesses! {
         let e3 = m.get_item(3).map(|e| e.0);
         let old = m.insert(k, v);
         cover!(n == 0 || existed.is_some(), "insert over an == key");
-        cover!(existed.is_none(), "insert of a new key");
+        cover!(existed.is_none() || n >= 4, "insert of a new key");  // keys are == modulo 4: a map of 4 holds every class
         check!(old == existed, "insert returns the previous value exactly when an == key existed");
         check!(m.len() == len0 + (existed.is_none() as usize), "insert grows the map only for a new key");
         check!(keys_pairwise_distinct(&m), "no two stored keys are ==");
@@ -139,7 +139,7 @@ harnesses! {
         let k = Key(s.u8());
         let want = model_get(&m, &k);
         cover!(want.is_some(), "hit");
-        cover!(want.is_none(), "miss");
+        cover!(want.is_none() || n >= 4, "miss");  // (no miss possible in a map holding all 4 key classes)
         check!(m.get(&k).copied() == want, "get finds a key exactly when it is == to a stored key");
         check!(m.contains_key(&k) == want.is_some(), "contains_key agrees with ==");
         check!(m.get_mut(&k).map(|v| *v) == want, "get_mut agrees with ==");
